@@ -20,12 +20,12 @@ EXPLANATION = ("Grouped counting: one inductive step from an arbitrary grouped c
                "iteration order / hash seed); the real add_read_info and dump_grouped run, both renderings are parsed back "
                "through sentinel tokens and z3 proves the partition and format-agreement obligations. Group lookup of the "
                "four groupers: presence bits symbolic (symx) and read-id strings symbolic (CrossHair).")
-STUBS = ["pysam alignment -> fake with query_name / get_tag", "printed numbers are sentinel tokens parsed back into the symbolic terms",
+STUBS = ["pysam alignment -> fake with query_name / get_tag", "pysam.AlignmentFile -> fake BAM yielding solver-chosen (read, chromosome) records", "printed numbers are sentinel tokens parsed back into the symbolic terms",
          "set of read groups -> list in a solver-chosen permutation"]
 ASSUMPTIONS = ["read-id delimiters do not overlap themselves (a 2-character delimiter has two different characters)",
                "group names and feature names are concrete catalogue strings; counts are exact rationals",
                "the documented group of a read: file label / tag value / suffix after the LAST delimiter / table entry; NA when missing"]
-OUTSIDE = ["split_read_group_table (pysam iteration over BAM files)", "thread-count dependence of group discovery"]
+OUTSIDE = ["pysam's own iteration over BAM files", "thread-count dependence of group discovery"]
 
 FEATS = ["F1", "F2"]
 _tmp = {"dir": None}
@@ -263,13 +263,59 @@ def h_profile_groups(n_groups):
     return fn
 
 
+class FakeBam:
+    def __init__(self, references, alignments):
+        self.references = references
+        self._al = alignments
+
+    def __iter__(self):
+        return iter(self._al)
+
+
+def h_split_table(n_al):
+    """split_read_group_table + ReadTableGrouper: a read listed in the table is found under its group on EVERY
+    chromosome it aligns to (file mode)"""
+    def fn(g):
+        d = os.path.dirname(fresh_prefix("tbl"))
+        table = os.path.join(d, "groups.tsv")
+        with open(table, "w") as fh:
+            fh.write("#read\tgroup\nr1\tG1\nr2\tG2\n")
+        chrs = ["chrA", "chrB"]
+        reads = ["r1", "r2", "r3"]
+        als = []
+        for i in range(n_al):
+            c = g.choice("alignment%d_chr" % i, 3)
+            r = g.choice("alignment%d_read" % i, 3)
+            als.append(Obj(reference_name=(chrs[c] if c < 2 else None), query_name=reads[r]))
+        n_files = 1 + g.choice("extra_bam_file", 2)
+        split = g.choice("file_split", n_al + 1) if n_files == 2 else n_al
+        files = {"/x/a.bam": FakeBam(chrs, als[:split]), "/x/b.bam": FakeBam(chrs, als[split:])}
+        fake_pysam = Obj(AlignmentFile=lambda name, mode="rb", **kw: files[name])
+        sample = Obj(file_list=[["/x/a.bam"], ["/x/b.bam"]][:n_files], read_group_file=os.path.join(d, "smp.read_group"))
+        old = read_groups.pysam
+        read_groups.pysam = fake_pysam
+        try:
+            call(g, read_groups.split_read_group_table, table, sample, 0, 1, "\t")
+        finally:
+            read_groups.pysam = old
+        for ch in chrs:
+            gr = call(g, read_groups.ReadTableGrouper, sample.read_group_file + "_" + ch, 0, 1, "\t")
+            for a in als[:n_al if n_files == 2 else split]:
+                if a.reference_name != ch:
+                    continue
+                want = {"r1": "G1", "r2": "G2"}.get(a.query_name, "NA")
+                g.check(call(g, gr.get_group_id, a) == want, "table grouper returns the table entry on every chromosome the read aligns to",
+                        detail={"chr": ch, "read": a.query_name})
+    return fn
+
+
 def instances(tier, seed):
     q = tier == "quick"
     L = "src.long_read_counter:"
     F = [L + "AssignedFeatureCounter.__init__", L + "AssignedFeatureCounter.add_read_info", L + "AssignedFeatureCounter.dump",
          L + "AssignedFeatureCounter.dump_grouped", L + "AssignedFeatureCounter.format_header"]
     out = []
-    group_sets = [["NA", "a"], ["b", "a", "NA"]] if q else [["NA", "a"], ["b", "a", "NA"], ["10", "9", "b", "B"]]
+    group_sets = [["NA", "A"], ["b", "a", "NA"]] if q else [["NA", "A"], ["NA", "a"], ["b", "a", "NA"], ["10", "NA", "b", "B"]]
     for gs in group_sets:
         for fmt in ("both",) if q else ("both", "matrix", "linear"):
             out.append(Instance("grouped[%s,%s]" % ("|".join(sorted(gs)), fmt), h_grouped(sorted(gs), fmt), F,
@@ -285,6 +331,9 @@ def instances(tier, seed):
     out.append(Instance("file_props[crosshair]", run=crosshair_lane.lane_run("_file_props", props_contract(), 40 if q else 200),
                         funcs=[R + "get_file_grouping_properties"], kind="crosshair", meta={"contract": "_file_props"},
                         bounds="CrossHair: option fields <= 2 chars", weight=900))
+    for n in ((2, 3) if q else (2, 3, 4)):
+        out.append(Instance("split_table[%d]" % n, h_split_table(n), [R + "split_read_group_table", R + "load_table", R + "ReadTableGrouper.get_group_id"],
+                            "%d alignments with solver-chosen read/chromosome, 1-2 BAM files" % n, weight=9 ** n, budget_s=900))
     for n in ((2,) if q else (2, 3)):
         out.append(Instance("profile_groups[%d]" % n, h_profile_groups(n), [L + "ProfileFeatureCounter.add_read_info_from_profile",
                                                                            L + "ExonCounter.add_read_info"],
